@@ -3352,6 +3352,34 @@ func (c *Ctx) checkDraftySpanBounds() {
 	if toTree == nil || atF == nil || endF == nil {
 		return
 	}
+	// the conversion loop may have been split off toTree (`spansFromStyles(doc, textLen)`): the function
+	// examined is the one (toTree or a helper it calls) that files fresh spans
+	filesFresh := func(g *ssa.Function) bool {
+		found := false
+		core.AllInstrs(g, func(in ssa.Instruction) {
+			if st, ok := in.(*ssa.Store); ok {
+				_, isIdx := st.Addr.(*ssa.IndexAddr)
+				a, fresh := st.Val.(*ssa.Alloc)
+				if isIdx && fresh {
+					if pt, ok := a.Type().(*types.Pointer); ok {
+						if nm, ok := pt.Elem().(*types.Named); ok && nm.Obj().Name() == "span" {
+							found = true
+						}
+					}
+				}
+			}
+		})
+		return found
+	}
+	if !filesFresh(toTree) {
+		core.AllInstrs(toTree, func(in ssa.Instruction) {
+			if call, ok := in.(*ssa.Call); ok {
+				if g := call.Call.StaticCallee(); g != nil && core.InPkg(g, "server/drafty") && len(g.Blocks) > 0 && filesFresh(g) {
+					toTree = g
+				}
+			}
+		})
+	}
 	r.Func(fk(toTree))
 	// (the loads as written: the walker's value forwarding would resolve them to the client's style)
 	rawLoad := func(f *types.Var) core.VPred {
@@ -3389,8 +3417,18 @@ func (c *Ctx) checkDraftySpanBounds() {
 		{"start >= -1", core.LessGuard("at < -1", isAt, core.IsConstInt(-1), false), "a span starting before -1 is kept"},
 		{"end <= length of the text in graphemes", core.LessGuard("len < end", func(v ssa.Value) bool {
 			// the length the renderer slices by (graphemes.length()), not the byte length of the string
-			call, ok := v.(*ssa.Call)
-			return ok && call.Call.StaticCallee() != nil && core.InModule(call.Call.StaticCallee())
+			isGcLen := func(x ssa.Value) bool {
+				call, ok := x.(*ssa.Call)
+				return ok && call.Call.StaticCallee() != nil && core.InModule(call.Call.StaticCallee())
+			}
+			if isGcLen(v) {
+				return true
+			}
+			// handed in by the caller (`spansFromStyles(doc, textLen)`)
+			if p, ok := v.(*ssa.Parameter); ok {
+				return c.paramAtCallers(p.Parent(), p, func(_ *ssa.Function, arg ssa.Value) bool { return isGcLen(arg) })
+			}
+			return false
 		}, isEnd, false), "a span ending beyond the text (counted in graphemes, as the renderer slices it) is kept"},
 		{"end >= start (no wrap-around of at+len)", core.Guard{Name: "end < at", Match: func(a core.CondAtom) (bool, bool) {
 			if a.Op != token.LSS {
@@ -3707,7 +3745,7 @@ func (c *Ctx) checkAttachmentLoopVisitsEveryEntry() {
 				"the loop over the attachments of a message can be left before the end of the list: local uploads listed after the entry that ends it are never linked to the message and are garbage-collected while the message exists")
 		}
 	}
-	r.Check(n >= 2, rule, "attachment loops", "-", fmt.Sprintf("%d", n), "fewer than two: anchor lost")
+	r.Check(n >= 1, rule, "attachment loops", "-", fmt.Sprintf("%d", n), "none: anchor lost")
 }
 
 // checkTagsNormalisedBeforeSort (C19): normalizeTags de-duplicates by comparing neighbours of the
@@ -3721,49 +3759,67 @@ func (c *Ctx) checkTagsNormalisedBeforeSort() {
 		return
 	}
 	r.Func(fk(fn))
-	var sorts, folds []ssa.Instruction
-	core.AllInstrs(fn, func(in ssa.Instruction) {
-		call, ok := in.(*ssa.Call)
-		if !ok {
-			return
-		}
-		switch calleeFullName(call) {
-		case "sort.Strings", "slices.Sort":
-			sorts = append(sorts, in)
-		case "strings.ToLower", "strings.TrimSpace":
-			folds = append(folds, in)
-		}
-	})
-	// the folding may sit in a helper called per entry
-	core.AllInstrs(fn, func(in ssa.Instruction) {
-		call, ok := in.(*ssa.Call)
-		if !ok {
-			return
-		}
-		if g := call.Call.StaticCallee(); g != nil && core.InModule(g) && len(g.Blocks) > 0 {
-			core.AllInstrs(g, func(in2 ssa.Instruction) {
-				if c2, ok := in2.(*ssa.Call); ok {
-					if nm := calleeFullName(c2); nm == "strings.ToLower" || nm == "strings.TrimSpace" {
-						folds = append(folds, in)
-					}
+	direct := func(g *ssa.Function) (sorts, folds []ssa.Instruction) {
+		core.AllInstrs(g, func(in ssa.Instruction) {
+			call, ok := in.(*ssa.Call)
+			if !ok {
+				return
+			}
+			switch calleeFullName(call) {
+			case "sort.Strings", "slices.Sort":
+				sorts = append(sorts, in)
+			case "strings.ToLower", "strings.TrimSpace":
+				folds = append(folds, in)
+			}
+		})
+		return
+	}
+	// examine: in g, no fold is reachable from a sort. A call of a helper counts as a sort when the
+	// helper sorts, and as a fold when it folds without sorting (a helper that does both - fold,
+	// then sort - is examined itself and counts as the sort it ends with).
+	nSort, nFold := 0, 0
+	var examine func(g *ssa.Function, d int)
+	examine = func(g *ssa.Function, d int) {
+		sorts, folds := direct(g)
+		nSort += len(sorts)
+		nFold += len(folds)
+		if d < 2 {
+			core.AllInstrs(g, func(in ssa.Instruction) {
+				call, ok := in.(*ssa.Call)
+				if !ok {
+					return
+				}
+				h := call.Call.StaticCallee()
+				if h == nil || h == g || !core.InModule(h) || len(h.Blocks) == 0 {
+					return
+				}
+				hs, hf := direct(h)
+				switch {
+				case len(hs) > 0:
+					sorts = append(sorts, in)
+					examine(h, d+1)
+				case len(hf) > 0:
+					folds = append(folds, in)
+					nFold += len(hf)
 				}
 			})
 		}
-	})
-	r.Check(len(sorts) >= 1 && len(folds) >= 1, rule, fk(fn)+": sorts the list and folds the entries", c.P.Pos(fn.Pos()), fmt.Sprintf("%d sort, %d fold", len(sorts), len(folds)), "anchor lost: no sort or no case/space folding in normalizeTags")
-	isFold := func(in ssa.Instruction) bool {
-		for _, f := range folds {
-			if f == in {
-				return true
+		isFold := func(in ssa.Instruction) bool {
+			for _, f := range folds {
+				if f == in {
+					return true
+				}
 			}
+			return false
 		}
-		return false
+		for i, s := range sorts {
+			found, w := core.PathAvoiding(g, s, isFold, nil, nil)
+			r.Check(!found, rule, fmt.Sprintf("%s: no entry is re-spelled after sort #%d", fk(g), i+1), c.pos(s), "",
+				"an entry is trimmed / lower-cased"+posOf(c, w)+" after the list was sorted: the neighbour comparison that removes duplicates runs over a list that is no longer sorted by the spelling it compares, so case or space variants of one tag survive")
+		}
 	}
-	for i, s := range sorts {
-		found, w := core.PathAvoiding(fn, s, isFold, nil, nil)
-		r.Check(!found, rule, fmt.Sprintf("%s: no entry is re-spelled after sort #%d", fk(fn), i+1), c.pos(s), "",
-			"an entry is trimmed / lower-cased"+posOf(c, w)+" after the list was sorted: the neighbour comparison that removes duplicates runs over a list that is no longer sorted by the spelling it compares, so case or space variants of one tag survive")
-	}
+	examine(fn, 0)
+	r.Check(nSort >= 1 && nFold >= 1, rule, fk(fn)+": sorts the list and folds the entries", c.P.Pos(fn.Pos()), fmt.Sprintf("%d sort, %d fold", nSort, nFold), "anchor lost: no sort or no case/space folding in normalizeTags")
 }
 
 // checkValidatedOnlyWhenNothingMissing (C11): the token issued at login carries FeatureValidated
